@@ -18,6 +18,19 @@ CHECKS = {
         note="Bounded: V<=3 tokens, <=2 documents, length<=5 exhaustively (larger by simulation in C04); geometric "
              "kernel with power 1/2 and timed delta=1 so weights are exact; variable radii injected as tables.",
         tech="functional TLA+ specification with exact rationals + TLC instance enumeration replayed into the code"),
+    "C05": dict(
+        cat="model_checking", ref="5 (C05), 4.1",
+        text="Vocab.tla defines the kept vocabulary and its indices by integer cross-multiplication (no floats); TLC "
+             "checks on every instance that the implementation's top-k rule satisfies the stated relation, that indices "
+             "are a bijection onto 0..n-1 in sorted order, invariance under document/token reordering and that a count "
+             "equal to a bound is kept. All corpora over 3 tokens (<=2-3 documents of <=3 tokens) x 48-160 pruning "
+             "configurations, and every (count,total) pair up to 40 (150 thorough) with the bound sitting exactly on "
+             "the count or frequency, are replayed through preprocess_token/timed/multi_token_sequences (dictionary, "
+             "inverse dictionary, pruned sequences, supplied dictionary with and without mask) and a sample through "
+             "NgramVectorizer / SkipgramVectorizer / TokenCooccurrenceVectorizer.",
+        note="Bounded corpora; regex clause exercised with three token names chosen so that fullmatch differs from "
+             "match/search; n-gram second-stage vocabulary is covered under C06.",
+        tech="functional TLA+ specification (exact integer predicates) + TLC enumeration replayed into preprocessing"),
     "C04": dict(
         cat="model_checking", ref="5 (C04), 4.4, 4.5",
         text="CooBuffer.tla (a line-by-line state machine of coo_utils.py) is model-checked exhaustively for small "
